@@ -154,6 +154,65 @@ def o_costantini(W):
     return out
 
 
+# ------------------------------------------------------------------ float oracles for generic (non perfect-cube) weights
+# direct enumeration of distinct node triples; the intensity of a triangle is taken as (w1*w2*w3) ** (1/3) per triple
+# (bct takes the cube root of every entry first and multiplies afterwards), plain Python floats
+
+def cr(x):
+    return 0.0 if x == 0 else math.copysign(abs(x) ** (1.0 / 3.0), x)
+
+
+def fo_cc_und(W):
+    n = len(W); out = []
+    for i in range(n):
+        N = [j for j in range(n) if j != i and W[i][j] != 0]
+        k = len(N)
+        if k < 2:
+            out.append(0.0); continue
+        t = math.fsum(cr(W[i][a] * W[a][b] * W[b][i]) for a in N for b in N if a != b)
+        out.append(t / (k * (k - 1)))
+    return out
+
+
+def fo_fagiolo_node(W, i):
+    n = len(W)
+    oth = [j for j in range(n) if j != i]
+    t = 0.5 * math.fsum(cr(a * b * c) for j in oth for k in oth if k != j
+                        for a in (W[i][j], W[j][i]) for b in (W[j][k], W[k][j]) for c in (W[k][i], W[i][k]))
+    dtot = sum((W[i][j] != 0) + (W[j][i] != 0) for j in oth)
+    dbi = sum(1 for j in oth if W[i][j] != 0 and W[j][i] != 0)
+    return t, dtot * (dtot - 1) - 2 * dbi
+
+
+def fo_cc_dir(W):
+    out = []
+    for i in range(len(W)):
+        t, T = fo_fagiolo_node(W, i)
+        out.append(0.0 if t == 0 else (None if T == 0 else t / T))
+    return out
+
+
+def fo_trans_und(W):
+    n = len(W); num = 0.0; den = 0
+    for i in range(n):
+        N = [j for j in range(n) if j != i and W[i][j] != 0]
+        num += math.fsum(cr(W[i][a] * W[a][b] * W[b][i]) for a in N for b in N if a != b)
+        den += len(N) * (len(N) - 1)
+    return None if den == 0 else num / den
+
+
+def fo_trans_dir(W):
+    num = 0.0; den = 0
+    for i in range(len(W)):
+        t, T = fo_fagiolo_node(W, i)
+        num += t; den += T
+    return None if den == 0 else num / den
+
+
+def fmat_float(W):
+    return [[float(x) for x in row] for row in W]
+
+
 def structural_zero(W, i, directed):
     """node i has fewer than two neighbours or lies on no triangle (links in either direction when directed)"""
     n = len(W)
@@ -286,6 +345,9 @@ def all_mats(n, directed, values):
 
 
 ROOTS = [F(p, q) for q in (1, 2, 3, 4, 5) for p in range(1, q + 1) if math.gcd(p, q) == 1]   # cube roots in (0,1]
+
+
+GENERIC = sorted(set([F(k, 10) for k in range(1, 11)] + [F(k, 16) for k in range(1, 17)] + [F(k, 100) for k in (1, 5, 37, 99)]))   # non-cube weights in (0,1]
 
 
 def rand_mat(rs, n, density, directed, roots, signed=False, isolate=0):
